@@ -195,6 +195,11 @@ struct InvalidOprError : public Error {
       Error(location, (boost::format("unexpected operand to OPR %s") % tokenEnumStr(token)).str()) {}
 };
 
+struct UnalignedLabelError : public Error {
+  UnalignedLabelError(Location location, std::string label) :
+      Error(location, (boost::format("absolute reference to label %s that is not word aligned") % label).str()) {}
+};
+
 struct UnknownLabelError : public Error {
   UnknownLabelError(Location location, std::string label) :
       Error(location, (boost::format("unknown label %s") % label).str()) {}
@@ -351,17 +356,40 @@ class InstrLabel : public Directive {
   std::string label;
   int labelValue;
   bool relative;
+  size_t size; // Encoded size in bytes, only ever grows during label resolution.
+  static size_t sizeOf(int value) {
+    return (value < 0 && numNibbles(value) == 1) ? 2 : numNibbles(value);
+  }
 public:
   InstrLabel(Token token, std::string label, bool relative) :
-      Directive(token), label(label), relative(relative) {}
+      Directive(token), label(label), labelValue(0), relative(relative), size(1) {}
   InstrLabel(Location location, Token token, std::string label, bool relative) :
-      Directive(location, token), label(label), relative(relative) {}
-  void setLabelValue(int newValue) { labelValue = newValue; }
+      Directive(location, token), label(label), labelValue(0), relative(relative), size(1) {}
+  /// Set the operand as an absolute value. Return true if anything changed.
+  bool setAbsoluteValue(int newValue) {
+    bool changed = newValue != labelValue || sizeOf(newValue) > size;
+    labelValue = newValue;
+    size = std::max(size, sizeOf(newValue));
+    return changed;
+  }
+  /// Set the operand from the distance between the label and the start of
+  /// this instruction. The operand is relative to the end of the instruction,
+  /// so it depends on the size, which is never reduced. Return true if
+  /// anything changed.
+  bool setRelativeValue(int distance) {
+    size_t newSize = size;
+    while (sizeOf(distance - static_cast<int>(newSize)) > newSize) {
+      newSize++;
+    }
+    int newValue = distance - static_cast<int>(newSize);
+    bool changed = newValue != labelValue || newSize != size;
+    labelValue = newValue;
+    size = newSize;
+    return changed;
+  }
   bool operandIsLabel() const { return true; }
   bool isRelative() const { return relative; }
-  size_t getSize() const {
-    return (labelValue < 0 && numNibbles(labelValue) == 1) ? 2 : numNibbles(labelValue);
-  }
+  size_t getSize() const { return size; }
   int getValue() const { return labelValue; }
   std::string getLabel() const { return label; }
   std::string toString() const {
@@ -731,53 +759,74 @@ class CodeGen {
 
   /// Iteratively update label values until the program size does not change.
   /// Return the final size of the program.
+  /// Return true if the next directive after index that occupies space is data.
+  bool labelNamesData(size_t index) const {
+    for (size_t i = index + 1; i < program.size(); i++) {
+      if (program[i]->getToken() == Token::DATA) {
+        return true;
+      }
+      if (program[i]->getToken() != Token::IDENTIFIER &&
+          program[i]->getToken() != Token::FUNC &&
+          program[i]->getToken() != Token::PROC) {
+        return false;
+      }
+    }
+    return false;
+  }
+
   void resolveLabels() {
-    int lastSize = -1;
     int byteOffset = 0;
-    //int count = 0;
-    while (lastSize != byteOffset) {
-      //std::cout << "Resolving labels iteration " << count++ << "\n";
-      lastSize = byteOffset;
+    bool changed = true;
+    // The first pass only places the labels, assuming the smallest encoding of
+    // every label reference. After that instruction sizes only grow, so this
+    // terminates.
+    bool placeLabelsOnly = true;
+    while (changed) {
+      changed = placeLabelsOnly;
       byteOffset = 0;
-      for (auto &directive : program) {
-        if (directive->getToken() == Token::DATA) {
-          // Data must be on 4-byte boundaries.
+      for (size_t index = 0; index < program.size(); index++) {
+        auto &directive = program[index];
+        bool isLabel = directive->getToken() == Token::IDENTIFIER ||
+                       directive->getToken() == Token::FUNC ||
+                       directive->getToken() == Token::PROC;
+        if (directive->getToken() == Token::DATA ||
+            (isLabel && labelNamesData(index))) {
+          // Data, and labels naming data, must be on 4-byte boundaries.
           if (byteOffset & 0x3) {
             byteOffset += 4 - (byteOffset & 0x3);
           }
         }
         // Update the label value.
-        if (directive->getToken() == Token::IDENTIFIER ||
-            directive->getToken() == Token::FUNC ||
-            directive->getToken() == Token::PROC) {
-          dynamic_cast<Label*>(directive.get())->setLabelValue(byteOffset);
+        if (isLabel) {
+          changed |= dynamic_cast<Label*>(directive.get())->setLabelValue(byteOffset);
         }
         // Update the label operand value of an instruction, accounting for
         // relative and absolute references.
-        if (directive->operandIsLabel()) {
+        if (directive->operandIsLabel() && !placeLabelsOnly) {
           auto instrLabel = dynamic_cast<InstrLabel*>(directive.get());
           if (labelMap.count(instrLabel->getLabel()) == 0) {
             throw UnknownLabelError(directive->getLocation(), instrLabel->getLabel());
           }
           int labelValue = labelMap[instrLabel->getLabel()]->getValue();
           if (instrLabel->isRelative()) {
-            int offset = labelValue - byteOffset;
-            //std::cout << "label value " << labelValue
-            //          << " byteOffset " << byteOffset
-            //          << " offset " << offset
-            //          << " instrlen " << instrLen(labelValue, byteOffset) << "\n";
-            if (offset >= 0) {
-              instrLabel->setLabelValue(offset - instrLen(labelValue, byteOffset));
-            } else {
-              instrLabel->setLabelValue(offset - instrLen(labelValue, byteOffset));
-            }
+            changed |= instrLabel->setRelativeValue(labelValue - byteOffset);
           } else {
-            assert((labelValue & 0x3) == 0 && "absolute label value is not word aligned");
-            instrLabel->setLabelValue(labelValue >> 2);
+            changed |= instrLabel->setAbsoluteValue(labelValue >> 2);
           }
         }
         directive->setByteOffset(byteOffset);
         byteOffset += directive->getSize();
+      }
+      placeLabelsOnly = false;
+    }
+    // Absolute references are word addresses.
+    for (auto &directive : program) {
+      if (directive->operandIsLabel()) {
+        auto instrLabel = dynamic_cast<InstrLabel*>(directive.get());
+        if (!instrLabel->isRelative() &&
+            (labelMap[instrLabel->getLabel()]->getValue() & 0x3) != 0) {
+          throw UnalignedLabelError(directive->getLocation(), instrLabel->getLabel());
+        }
       }
     }
   }
